@@ -554,8 +554,8 @@ RULE = ("random histories of 4-14 operations over 1-3 objects (json values, tabl
         "different settings (coloured / no_color / other configuration) consumed alternately step by step (next), with whole consumptions "
         "(str / full iteration) and ordinary renderings in between, drained at the end, or consumed whole only after other renderings; "
         "tables there have break columns and record limits (service lines), json / report results share one printer / formatter.  "
-        "Plus 16 (thorough 200) equal-values histories (cells and keys 1 / True / 1.0, 0 / False / 0.0 / -0.0, 2 / 2.0, '1' through ONE enum field type "
-        "shared by 2-3 tables, every modifier, rendered alternately) and 12 (160) outliving-help histories (HCommand objects created before / under "
+        "Plus 40 (thorough 300) equal-values histories (cells and keys 1 / True / 1.0, 0 / False / 0.0 / -0.0, 2 / 2.0, '1' through ONE enum field type "
+        "shared by 2-3 tables, every modifier, rendered alternately; in two cases of three all cells come from one class of equal values, in four of ten no key of the field type matches, so that the length cache decides the widths) and 12 (160) outliving-help histories (HCommand objects created before / under "
         "another global configuration, set_global_colors_config / registrations in between, help through the OLD objects): regressions of the two "
         "repaired findings.")
 TRUSTED_BASE = [
@@ -1261,19 +1261,24 @@ def _alias_case(rng):
     keys -- of ONE enum field type shared by two or three tables, rendered one after the other and
     again, coloured and no_color, with every modifier: each cell must be what a fresh field type prints for that very
     value (regression of the repaired finding enum-cache-equal-keys: the cell and length caches were keyed by the value)"""
-    keys = rng.sample([1, 0, 2, True, 1.0, "1", 0.0], rng.randrange(2, 5))
+    # four cases in ten: no key of the field type equals any cell (every cell is a 'missing' value, measured by len(str(value)):
+    # the LENGTH cache decides the column width, and equal values of different printed length -- 0 / False / 0.0 / -0.0 -- must not share it)
+    keys = rng.sample([1, 0, 2, True, 1.0, "1", 0.0], rng.randrange(2, 5)) if rng.random() < 0.6 else rng.sample([5, 7, "x", 300], 2)
     ft = {"values": [[k, rng.choice(["one", "Active", "x", "Blocked"]), rng.choice([None, None, "name_good", "name_warn", "error"])] for k in keys],
           "missing": rng.choice([None, None, ["<?>", "error"]])}
+    # two cases in three draw all their cells from ONE class of equal values (so that the literals of the class meet in
+    # the caches in every order, 0.0 / -0.0 included), the others from everything
+    pool = rng.choice([[1, True, 1.0], [0, False, 0.0, -0.0], [0.0, -0.0, 0], [2, 2.0, 1, True], ALIAS_VALUES, ALIAS_VALUES])
     objs = []
     for _ in range(rng.randrange(2, 4)):
         # tables only: a value found in the enum dict through == but printed longer than the key (True for key 1) is
         # truncated, and PPRecordFmt cannot truncate (AttributeError: no 'warn' accessor -- see the notes, outside C10)
         kind = "table"
         fields = ["st"] + (["id"] if rng.random() < 0.4 else [])
-        col = "st" + rng.choice(["", "/full", "/val", "/name"]) + rng.choice(["", ":1-20", ":12", ":1-20"])
+        col = "st" + rng.choice(["", "/full", "/val", "/name"]) + rng.choice(["", "", ":1-20", ":12", ":1-20"])
         fmt = ",".join([col] + fields[1:])
         nrec = 1 if kind == "rec" else rng.randrange(1, 4)
-        recs = [[rng.choice(ALIAS_VALUES)] + [rng.randrange(100)] * (len(fields) - 1) for _ in range(nrec)]
+        recs = [[rng.choice(pool)] + [rng.randrange(100)] * (len(fields) - 1) for _ in range(nrec)]
         spec = {"k": kind, "fields": fields, "ft": {"st": 0}, "fmt": fmt}
         if kind == "rec":
             spec["rec"] = recs[0]
@@ -1333,14 +1338,14 @@ def gen_cases(rng, tier):
     cases += [_interleave_case(rng) for _ in range(360 if big else 36)]
     cases += [_reg_case(rng) for _ in range(200 if big else 12)]
     cases += [_synced_case(rng) for _ in range(200 if big else 12)]
-    cases += [_alias_case(rng) for _ in range(200 if big else 16)]
+    cases += [_alias_case(rng) for _ in range(300 if big else 40)]
     cases += [_help_case(rng) for _ in range(160 if big else 12)]
     cases += [_hunt_case(rng) for _ in range(12 if big else 3)]
     return cases
 
 
 def search_cases(rng, tier):
-    return [_sibling_case(rng) for _ in range(80)] + [_interleave_case(rng) for _ in range(120)] + [_threshold_case(rng) for _ in range(240)] + [_hunt_case(rng) for _ in range(30)] + [_reg_case(rng) for _ in range(60)] + [_synced_case(rng) for _ in range(60)] + [_alias_case(rng) for _ in range(60)] + [_help_case(rng) for _ in range(60)] + [_rand_history(rng, True) for _ in range(600)]
+    return [_sibling_case(rng) for _ in range(80)] + [_interleave_case(rng) for _ in range(120)] + [_threshold_case(rng) for _ in range(240)] + [_hunt_case(rng) for _ in range(30)] + [_reg_case(rng) for _ in range(60)] + [_synced_case(rng) for _ in range(60)] + [_alias_case(rng) for _ in range(120)] + [_help_case(rng) for _ in range(60)] + [_rand_history(rng, True) for _ in range(600)]
 
 
 def kind(case):
